@@ -112,7 +112,7 @@ type Exec struct {
 
 func (x *Exec) fail(pos token.Pos, format string, args ...interface{}) {
 	msg := fmt.Sprintf(format, args...)
-	if pos.IsValid() {
+	if pos.IsValid() && x.pkg != nil {
 		p := x.pkg.Fset.Position(pos)
 		msg = fmt.Sprintf("%s:%d: %s", shortFile(p.Filename), p.Line, msg)
 	}
@@ -159,7 +159,7 @@ func (x *Exec) oblige(st *State, kind, name, label string, goal *Term, pos token
 	o := &Obligation{Unit: x.unit.Key, Name: x.unit.Short + "." + name, Kind: kind, Label: label,
 		Assume: append([]*Term(nil), st.assume...), Goal: goal, Props: x.curProps, Bounded: x.bounded,
 		Inputs: x.inputs, Imprec: append([]string(nil), st.imprec...)}
-	if pos.IsValid() {
+	if pos.IsValid() && x.pkg != nil {
 		p := x.pkg.Fset.Position(pos)
 		o.Pos = fmt.Sprintf("%s:%d", shortFile(p.Filename), p.Line)
 	}
